@@ -123,7 +123,8 @@ class StubModel:
         return means, covs
 
     def add_sample(self, *args):
-        self.added.append(tuple(np.array(a, dtype=float).copy() if not isinstance(a, (set, frozenset)) else sorted(a) for a in args))
+        # index sets (PaVeBa / Auer) are kept in their iteration order, which is what the real model zips over
+        self.added.append(tuple(np.array(a, dtype=float).copy() if not isinstance(a, (set, frozenset)) else list(a) for a in args))
 
     def update(self):
         self.updates += 1
